@@ -376,6 +376,16 @@ def i_unpack(fmt, data):
     return NotImplemented
 
 
+import time as _time
+
+
+@intrinsic(_time.time)
+def i_time():
+    if core.symbolic_mode():
+        return 1500000000.0 + getattr(core.CTX, "_clock", 0)
+    return NotImplemented
+
+
 def i_join(sep, it):
     items = list(it)
     if any(isinstance(x, (SymChar, SymStr)) for x in items):
